@@ -306,6 +306,18 @@ class CreateSamplePrimitive(_NoReplay):
                 yield f"draw{n}:batch_rule_is_the_modular_vmap_only_rule", rejects
                 yield f"draw{n}:carries_the_dedicated_lowering_exception", isinstance(p.get("lowering_exception"), pjax.LoweringSamplePrimitiveToMLIRException)
                 yield f"draw{n}:keyed_sampler_and_flat_sampler_attached", p.get("keyful_sampler") is self.ks and p.get("flat_keyful_sampler") is not None
+                # end to end: the lowering rule of the primitive, given EXACTLY the parameters this binding carries
+                # (whatever else the binder attached), raises the dedicated exception under the default flags
+                low = "no error"
+                try:
+                    pjax.sample_p.lowering(None, *a, **p, **k)
+                except pjax.LoweringSamplePrimitiveToMLIRException:
+                    low = "raised"
+                except EngineLimit:
+                    low = "went on to lower the implementation"
+                except Exception as e:  # lowering machinery reached: the guard did not fire
+                    low = "went on to lower the implementation (%s)" % type(e).__name__
+                yield f"draw{n}:lowering_this_binding_raises_the_dedicated_exception", low == "raised"
         finally:
             pjax.create_sample_primitive = orig
         yield "operands_of_each_draw_are_its_own_arguments", self.bound[0][1] == (self.a, self.b) and self.bound[1][1] == (self.b, self.a)
